@@ -108,3 +108,15 @@ contract(MWN, "ShardWriterNP._write", props=["C18", "C04", "C01"],
                      ],
                 frame={"ShardWriterNP._buffer": ["self"]}),
     })
+
+contract(MWN, "ShardWriterNP.supported_compressions", props=["C18"], params={}, returns="list:U", modifies=[],
+    ensures=["len(result) == 2 and result[0] == 'ZIP' and result[1] == ''"])
+contract(MWN, "ShardWriterNP.close", props=["C06", "C10"], params={},
+    requires=["dstate(self._shard_file) == 0",
+              "self.dataset_structure.compression == 'ZIP' or self.dataset_structure.compression == ''"],
+    modifies=["ShardWriterNP._buffer@self", "ghost:fs"],
+    # C06: the archive exists, complete, iff at least one example was buffered; nothing else is touched
+    fs_effects=[("self._shard_file", None, "exists(lambda n: n in self._buffer, n='U')")],
+    ensures=[("C06", "implies(old(exists(lambda n: n in self._buffer, n='U')), dstate(self._shard_file) == 2)"),
+             "forall(lambda n: not (n in self._buffer), n='U')"],
+    raises={})
